@@ -6,7 +6,7 @@ sys.path.insert(0, os.path.dirname(os.path.dirname(os.path.abspath(__file__))))
 from s3sv import selftest
 V = selftest.VERIF
 PIDS = ["C%02d" % i for i in range(1, 21)]
-only = sys.argv[1] if len(sys.argv) > 1 else ""
+only = tuple(sys.argv[1:]) or ("",)
 ids = sorted(f[:-5] for f in os.listdir(os.path.join(V, "selftest", "benign")) if f.endswith(".diff") and f.startswith(only))
 mp = os.path.join(V, "selftest", "benign_matrix.json")
 matrix = json.load(open(mp)) if os.path.exists(mp) else {}
